@@ -678,9 +678,446 @@ def check_substreams_default(ctx, rep, rng, tier):
     return cnt
 
 
+# ------------------------------------------------------------------ StreamsInfo
+def norm_pack_tree(t):
+    return [t[0], t[1], t[2], t[3], t[4], [x == 1 for x in t[5]], t[6] == 1]
+
+
+def streams_state(o):
+    return [[] if o.packinfo is None else [packinfo_state(o.packinfo)],
+            [] if o.unpackinfo is None else [unpackinfo_state(o.unpackinfo)],
+            [] if o.substreamsinfo is None else [sub_state(o.substreamsinfo)]]
+
+
+def streams_from_state(st):
+    o = ai.StreamsInfo()
+    o.packinfo = packinfo_from_state(st[0][0]) if st[0] else None
+    o.unpackinfo = unpackinfo_from_state(st[1][0]) if st[1] else None
+    o.substreamsinfo = sub_from_state(st[2][0]) if st[2] else None
+    return o
+
+
+def norm_streams_tree(t):
+    return [[norm_pack_tree(x) for x in t[0]], [[u[0], [norm_folder_tree(x) for x in u[1]], u[2]] for u in t[1]],
+            [norm_sub_tree(x) for x in t[2]]]
+
+
+def rnd_streams(rng, consistent=True):
+    up = rnd_unpackinfo(rng, consistent=consistent or rng.random() < 0.5)
+    for f in up[1]:
+        f[5] = rng.random() < 0.4
+        f[6] = [rng.getrandbits(32)] if f[5] else []
+    pk = rnd_packinfo(rng, consistent=consistent or rng.random() < 0.5)
+    pk[0] = rnd_u(rng, rng.choice([0, 7, 14]))
+    st = [[pk] if rng.random() < 0.85 else [], [up] if rng.random() < 0.85 else [], []]
+    if rng.random() < 0.8:
+        st[2] = [rnd_sub(rng, len(up[1]), consistent=consistent or rng.random() < 0.5)]
+    if rng.random() < 0.8:
+        # mostly small sizes: the read check skips inputs in which any NUMBER is large (see with_number_guard)
+        small = lambda l: [x % 16384 if x > 0 else x for x in l]
+        pk[2] = small(pk[2])
+        for f in up[1]:
+            f[0] = small(f[0])
+        if st[2] and st[2][0][2]:
+            st[2][0][2] = [small(st[2][0][2][0])]
+    return st
+
+
+def with_number_guard(fn):
+    """run fn(); also the largest NUMBER archiveinfo.read_uint64 returned meanwhile (the extracted generated code
+    materialises range(n) and Z.to_nat n for file.read(n); CPython does not)"""
+    orig = ai.read_uint64
+    seen = [0]
+
+    def w(f):
+        v = orig(f)
+        seen[0] = max(seen[0], v)
+        return v
+    ai.read_uint64 = w
+    try:
+        try:
+            r = [0, fn()]
+        except (MemoryError, OverflowError):
+            r = None
+        except Exception as e:  # noqa
+            r = [1, err_code(e)]
+    finally:
+        ai.read_uint64 = orig
+    return r, seen[0]
+
+
+def check_streams_read(ctx, rep, rng, tier):
+    if not available(ctx, "gen_StreamsInfo_retrieve"):
+        return 0
+    model = ctx["model"]
+    cnt = 0
+    inputs = [b"", b"\x00", b"\x06", b"\x07", b"\x08\x00", b"\x06\x00\x00\x00\x00", b"\x07\x0b\x00\x00\x0c\x00\x00",
+              b"\x06\x00\x01\x09\x05\x00\x07\x0b\x01\x00\x01\x01\x21\x0c\x05\x00\x08\x00\x00rest",
+              b"\x06\x00\x01\x09\x05\x00\x08\x00\x00", b"\x07\x0b\x01\x00\x01\x01\x21\x0c\x05\x00\x08\x0d\x02\x09\x03\x00\x00",
+              b"\x07\x0b\x01\x00\x01\x01\x21\x0c\x05\x0a\x01\x11\x22\x33\x44\x00\x08\x0d\x02\x09\x03\x0a\x00\xc0\x01\x02\x03\x04\x05\x06\x07\x08\x00\x00"]
+    for i in range(400 if tier == "quick" else 12000):
+        st = rnd_streams(rng)
+        buf = io.BytesIO()
+        try:
+            streams_from_state(st).write(buf)
+        except Exception:  # noqa
+            continue
+        body = buf.getvalue()[1:] + bytes(rng.randrange(256) for _ in range(rng.choice([0, 0, 2])))
+        inputs.append(body)
+        inputs.append(mutate(rng, body))
+        inputs.append(mutate(rng, mutate(rng, body)))
+    for bs in inputs:
+        f = io.BytesIO(bs)
+        want, big = with_number_guard(lambda: ai.StreamsInfo.retrieve(f))
+        if want is None or big > MAXCOUNT:
+            continue
+        if want[0] == 0:
+            want = [0, [streams_state(want[1]), list(f.read())]]
+        got = model.call("gen_StreamsInfo_retrieve", list(bs))
+        if got == [1, 4]:
+            rep.dist("translation_StreamsInfo_read", "external-folder-stream (not translated)")
+            continue
+        if got[0] == 0:
+            got = [0, [norm_streams_tree(got[1][0]), got[1][1]]]
+        cnt += 1
+        rep.dist("translation_StreamsInfo_read", "ok" if want[0] == 0 else "err%d" % want[1])
+        if got != want:
+            _violation(rep, "the function translated from StreamsInfo.read disagrees with the Python on %s: generated %r, Python %r" % (
+                bs.hex(), got, want), {"input": bs.hex()}, "StreamsInfo.read")
+            return cnt
+    return cnt
+
+
+def check_streams_write(ctx, rep, rng, tier):
+    if not available(ctx, "gen_StreamsInfo_write"):
+        return 0
+    model = ctx["model"]
+    cnt = 0
+    for i in range(400 if tier == "quick" else 12000):
+        st = rnd_streams(rng, consistent=(i % 4 != 0))
+        o = streams_from_state(st)
+        buf = io.BytesIO()
+        try:
+            o.write(buf)
+            want = [0, [streams_state(o), list(buf.getvalue())]]
+        except Exception as e:  # noqa
+            want = [1, err_code(e)]
+        got = model.call("gen_StreamsInfo_write", st)
+        if got[0] == 0:
+            got = [0, [norm_streams_tree(got[1][0]), got[1][1]]]
+        cnt += 1
+        rep.dist("translation_StreamsInfo_write", "ok" if want[0] == 0 else "err%d" % want[1])
+        if got != want:
+            _violation(rep, "the function translated from StreamsInfo.write disagrees with the Python on the object %r: "
+                            "generated %r, Python %r" % (st, got, want), {"object": st}, "StreamsInfo.write")
+            return cnt
+    return cnt
+
+
+# ------------------------------------------------------------------ FilesInfo pieces (names, times, attributes)
+TIME_KEYS = ["creationtime", "lastaccesstime", "lastwritetime"]
+
+
+def _ooz(d, k):
+    return [] if k not in d else [[] if d[k] is None else [int(d[k])]]
+
+
+def entry_state(d):
+    return [bool(d["emptystream"]), [] if "emptyfile" not in d else [bool(d["emptyfile"])],
+            [] if "filename" not in d else [[ord(c) for c in d["filename"]]],
+            _ooz(d, "creationtime"), _ooz(d, "lastaccesstime"), _ooz(d, "lastwritetime"), _ooz(d, "attributes")]
+
+
+def entry_from_state(st):
+    d = {"emptystream": st[0]}
+    if st[1]:
+        d["emptyfile"] = st[1][0]
+    if st[2]:
+        d["filename"] = "".join(chr(c) for c in st[2][0])
+    for k, v in zip(TIME_KEYS + ["attributes"], st[3:]):
+        if v:
+            d[k] = v[0][0] if v[0] else None
+    return d
+
+
+def norm_entry_tree(t):
+    return [t[0] == 1, [x == 1 for x in t[1]], t[2], t[3], t[4], t[5], t[6]]
+
+
+def filesinfo_state(o):
+    return [[entry_state(d) for d in o.files], [bool(x) for x in o.emptyfiles]]
+
+
+def filesinfo_from_state(st):
+    o = ai.FilesInfo()
+    o.files = [entry_from_state(e) for e in st[0]]
+    o.emptyfiles = list(st[1])
+    return o
+
+
+def norm_filesinfo_tree(t):
+    return [[norm_entry_tree(e) for e in t[0]], [x == 1 for x in t[1]]]
+
+
+NAME_CHARS = [0x41, 0x62, 0x2E, 0x5C, 0x2F, 0x20, 0xE9, 0x4E2D, 0xFFFF, 0x10000, 0x1F600, 0x10FFFF]
+
+
+def rnd_ooz(rng, bits, odd=False):
+    r = rng.random()
+    if r < 0.2:
+        return []
+    if r < 0.4:
+        return [[]]
+    v = rng.getrandbits(rng.choice([1, 8, bits, bits]))
+    if odd and rng.random() < 0.3:
+        v = rng.choice([-1, 1 << bits, (1 << bits) + 7])
+    return [[v]]
+
+
+def rnd_entry(rng, consistent=True):
+    name = [rng.choice(NAME_CHARS) for _ in range(rng.choice([0, 1, 1, 3, 6]))]
+    if not consistent and rng.random() < 0.3:
+        name.append(rng.choice([0xD800, 0xDC00, 0]))
+    return [rng.random() < 0.4, [] if rng.random() < 0.5 else [rng.random() < 0.5], [] if rng.random() < 0.15 else [name],
+            rnd_ooz(rng, 64, not consistent), rnd_ooz(rng, 64, not consistent), rnd_ooz(rng, 64, not consistent),
+            rnd_ooz(rng, 32, not consistent)]
+
+
+def rnd_filesinfo(rng, consistent=True):
+    n = rng.choice([0, 1, 1, 2, 3, 5, 9])
+    st = [[rnd_entry(rng, consistent) for _ in range(n)], [rng.random() < 0.5 for _ in range(rng.choice([0, 0, 1, 3]))]]
+    shape = rng.random()
+    if shape < 0.25:       # every entry has every value (the "all defined" form of the vectors)
+        for e in st[0]:
+            for i in (3, 4, 5, 6):
+                e[i] = [[rng.getrandbits(32)]]
+    elif shape < 0.35:
+        for e in st[0]:
+            for i in (3, 4, 5, 6):
+                e[i] = []
+    return st
+
+
+def check_files_write_pieces(ctx, rep, rng, tier):
+    if not available(ctx, "gen_FilesInfo_write_piece"):
+        return 0
+    model = ctx["model"]
+    cnt = 0
+    for i in range(500 if tier == "quick" else 15000):
+        st = rnd_filesinfo(rng, consistent=(i % 4 != 0))
+        for op, nm in enumerate(["_write_names", "_write_attributes", "creationtime", "lastaccesstime", "lastwritetime"]):
+            o = filesinfo_from_state(st)
+            propid = bytes([rng.choice([18, 19, 20, 0, 255])])
+            buf = io.BytesIO()
+            try:
+                if op < 2:
+                    getattr(o, nm)(buf)
+                else:
+                    o._write_times(buf, propid, nm)
+                want = [0, list(buf.getvalue())]
+            except Exception as e:  # noqa
+                want = [1, err_code(e)]
+            got = model.call("gen_FilesInfo_write_piece", [op, st, list(propid)])
+            cnt += 1
+            rep.dist("translation_FilesInfo_write_pieces", "%s %s" % (nm, "ok" if want[0] == 0 else "err%d" % want[1]))
+            if got != want or filesinfo_state(o) != st:
+                _violation(rep, "the function translated from FilesInfo.%s disagrees with the Python on the object %r: generated %r, "
+                                "Python %r" % (nm if op < 2 else "_write_times(%s)" % nm, st, got, want), {"object": st, "piece": nm},
+                           "FilesInfo._write pieces")
+                return cnt
+        v = [rng.random() < 0.3 for _ in range(rng.randrange(0, 6))]
+        got = model.call("gen_FilesInfo_are_there", v)
+        cnt += 1
+        if got != [0, 1 if ai.FilesInfo._are_there(v) else 0]:
+            _violation(rep, "the function translated from FilesInfo._are_there disagrees with the Python on %r: %r" % (v, got),
+                       {"vector": v}, "FilesInfo._are_there")
+            return cnt
+    for i in range(300 if tier == "quick" else 8000):
+        cps = [rng.choice(NAME_CHARS + [0xD800, 0xDFFF, 0]) for _ in range(rng.randrange(0, 6))]
+        buf = io.BytesIO()
+        try:
+            ai.write_utf16(buf, "".join(chr(c) for c in cps))
+            want = [0, list(buf.getvalue())]
+        except Exception as e:  # noqa
+            want = [1, err_code(e)]
+        got = model.call("gen_write_utf16", cps)
+        cnt += 1
+        if got != want:
+            _violation(rep, "the function translated from write_utf16 disagrees with the Python on %r: generated %r, Python %r" % (
+                cps, got, want), {"codepoints": cps}, "write_utf16")
+            return cnt
+    return cnt
+
+
+def check_files_read_pieces(ctx, rep, rng, tier):
+    if not available(ctx, "gen_FilesInfo_read_piece"):
+        return 0
+    model = ctx["model"]
+    cnt = 0
+    for i in range(300 if tier == "quick" else 15000):
+        st = rnd_filesinfo(rng)
+        n = len(st[0])
+        # --- names
+        buf = io.BytesIO()
+        for e in st[0]:
+            try:
+                ai.write_utf16(buf, "".join(chr(c) for c in (e[2][0] if e[2] else [0x78])))
+            except Exception:  # noqa
+                pass
+        body = buf.getvalue() + bytes(rng.randrange(256) for _ in range(rng.choice([0, 0, 3])))
+        for bs in (body, mutate(rng, body), body[:rng.randrange(len(body) + 1)]):
+            # read_utf16 alone
+            f = io.BytesIO(bs)
+            try:
+                v = ai.read_utf16(f)
+                want = [0, [[ord(c) for c in v], list(f.read())]]
+            except Exception as e:  # noqa
+                want = [1, err_code(e)]
+            got = model.call("gen_read_utf16", list(bs))
+            cnt += 1
+            if got != want:
+                _violation(rep, "the function translated from read_utf16 disagrees with the Python on %s: generated %r, Python %r" % (
+                    bs.hex(), got, want), {"input": bs.hex()}, "read_utf16")
+                return cnt
+            o = filesinfo_from_state(st)
+            f = io.BytesIO(bs)
+            try:
+                o._read_name(f)
+                want = [0, [filesinfo_state(o), list(f.read())]]
+            except Exception as e:  # noqa
+                want = [1, err_code(e)]
+            got = model.call("gen_FilesInfo_read_piece", [0, st, list(bs), []])
+            if got[0] == 0:
+                got = [0, [norm_filesinfo_tree(got[1][0]), got[1][1]]]
+            cnt += 1
+            rep.dist("translation_FilesInfo_read_pieces", "_read_name %s" % ("ok" if want[0] == 0 else "err%d" % want[1]))
+            if got != want:
+                _violation(rep, "the function translated from FilesInfo._read_name disagrees with the Python on %s (object %r): "
+                                "generated %r, Python %r" % (bs.hex(), st, got, want), {"input": bs.hex(), "object": st}, "FilesInfo._read_name")
+                return cnt
+        # --- attributes and times
+        for op, nm, width in ((1, "attributes", 4), (2, "creationtime", 8), (3, "lastaccesstime", 8), (4, "lastwritetime", 8)):
+            defined = [rng.random() < 0.6 for _ in range(n)]
+            if rng.random() < 0.25:
+                defined = [True] * n
+            vals = b"".join(bytes(rng.randrange(256) for _ in range(width)) for d in defined if d)
+            if op == 1:
+                dl = list(defined) if rng.random() < 0.8 else defined[:-1] if defined else [True]
+                inputs = [(vals + b"zz", dl), (vals[:rng.randrange(len(vals) + 1)], dl)]
+            else:
+                buf = io.BytesIO()
+                ai.write_boolean(buf, defined, all_defined=True)
+                body = buf.getvalue() + b"\x00" + vals + bytes(rng.randrange(256) for _ in range(rng.choice([0, 2])))
+                inputs = [(body, []), (mutate(rng, body), []), (body[:rng.randrange(len(body) + 1)], [])]
+            for bs, dl in inputs:
+                o = filesinfo_from_state(st)
+                f = io.BytesIO(bs)
+                try:
+                    if op == 1:
+                        o._read_attributes(f, dl)
+                    else:
+                        o._read_times(f, nm)
+                    want = [0, [filesinfo_state(o), list(f.read())]]
+                except Exception as e:  # noqa
+                    want = [1, err_code(e)]
+                got = model.call("gen_FilesInfo_read_piece", [op, st, list(bs), dl])
+                if got[0] == 0:
+                    got = [0, [norm_filesinfo_tree(got[1][0]), got[1][1]]]
+                cnt += 1
+                rep.dist("translation_FilesInfo_read_pieces", "%s %s" % (nm, "ok" if want[0] == 0 else "err%d" % want[1]))
+                if got != want:
+                    _violation(rep, "the function translated from FilesInfo._read_%s disagrees with the Python on %s (object %r, defined %r): "
+                                    "generated %r, Python %r" % ("attributes" if op == 1 else "times(%s)" % nm, bs.hex(), st, dl, got, want),
+                               {"input": bs.hex(), "object": st, "defined": dl, "piece": nm}, "FilesInfo._read pieces")
+                    return cnt
+    return cnt
+
+
+def check_files_read(ctx, rep, rng, tier):
+    """FilesInfo._read as a whole: real records written by FilesInfo.write, mutated / truncated"""
+    if not available(ctx, "gen_FilesInfo_retrieve"):
+        return 0
+    model = ctx["model"]
+    cnt = 0
+    inputs = [b"", b"\x00", b"\x00\x00", b"\x01\x00", b"\x02\x0e\x01\x80\x00", b"\x02\x0e\x01\xc0\x0f\x01\x80\x00rest", b"\x01\x19\x02\x00\x00\x00",
+              b"\x01\x11\x05\x00\x61\x00\x00\x00\x00", b"\x01\x11\x05\x01\x61\x00\x00\x00\x00", b"\x01\x18\x01\x00\x00", b"\x01\x63\x00\x00",
+              b"\x01\x15\x06\x01\x00\x20\x00\x00\x00\x00", b"\x01\x14\x0a\x01\x00\x01\x02\x03\x04\x05\x06\x07\x08\x00", b"\x01\x19\x05\x00"]
+    for i in range(300 if tier == "quick" else 15000):
+        st = rnd_filesinfo(rng)
+        for e in st[0]:
+            e[1] = [rng.random() < 0.5] if e[0] and rng.random() < 0.7 else []
+        o = filesinfo_from_state(st)
+        buf = io.BytesIO()
+        buf.write(bytes(rng.randrange(4)))      # the padding depends on the position
+        pos = buf.tell()
+        try:
+            o.write(buf)
+        except Exception:  # noqa
+            continue
+        body = buf.getvalue()[pos + 1:] + bytes(rng.randrange(256) for _ in range(rng.choice([0, 0, 2])))
+        inputs.append(body)
+        inputs.append(mutate(rng, body))
+        inputs.append(mutate(rng, mutate(rng, body)))
+        inputs.append(body[:rng.randrange(len(body) + 1)])
+    for bs in inputs:
+        try:
+            if ai.read_uint64(io.BytesIO(bs)) > MAXCOUNT:      # numfiles: the Python itself would build that many dicts
+                continue
+        except Exception:  # noqa
+            pass
+        f = io.BytesIO(bs)
+        want, big = with_number_guard(lambda: ai.FilesInfo.retrieve(f))
+        if want is None or big > MAXCOUNT:
+            continue
+        if want[0] == 0:
+            want = [0, [filesinfo_state(want[1]), list(f.read())]]
+        got = model.call("gen_FilesInfo_retrieve", list(bs))
+        if got == [1, 4]:
+            rep.dist("translation_FilesInfo_read", "external names / attributes or START_POS (not translated)")
+            continue
+        if got[0] == 0:
+            got = [0, [norm_filesinfo_tree(got[1][0]), got[1][1]]]
+        cnt += 1
+        rep.dist("translation_FilesInfo_read", "ok" if want[0] == 0 else "err%d" % want[1])
+        if got != want:
+            _violation(rep, "the function translated from FilesInfo._read disagrees with the Python on %s: generated %r, Python %r" % (
+                bs.hex(), got, want), {"input": bs.hex()}, "FilesInfo._read")
+            return cnt
+    return cnt
+
+
+def check_files_write(ctx, rep, rng, tier):
+    """FilesInfo.write as a whole, at every alignment of the start position"""
+    if not available(ctx, "gen_FilesInfo_write"):
+        return 0
+    model = ctx["model"]
+    cnt = 0
+    for i in range(600 if tier == "quick" else 20000):
+        st = rnd_filesinfo(rng, consistent=(i % 5 != 0))
+        for e in st[0]:
+            e[1] = [rng.random() < 0.5] if rng.random() < 0.6 else []
+        o = filesinfo_from_state(st)
+        pos = rng.choice([0, 1, 2, 3, 32, 33, 1000003, rng.getrandbits(20)])
+        buf = io.BytesIO()
+        buf.write(bytes(pos))
+        try:
+            o.write(buf)
+            want = [0, list(buf.getvalue()[pos:])]
+        except Exception as e:  # noqa
+            want = [1, err_code(e)]
+        got = model.call("gen_FilesInfo_write", [st, pos])
+        cnt += 1
+        rep.dist("translation_FilesInfo_write", "pos%%4=%d %s" % (pos % 4, "ok" if want[0] == 0 else "err%d" % want[1]))
+        if got != want or filesinfo_state(o) != st:
+            _violation(rep, "the function translated from FilesInfo.write disagrees with the Python on the object %r at position %d: "
+                            "generated %r, Python %r" % (st, pos, got, want), {"object": st, "pos": pos}, "FilesInfo.write")
+            return cnt
+    return cnt
+
+
 READER_PARTS = [check_packinfo_read, check_small_functions, check_folder, check_unpackinfo_read, check_substreams_read,
-                check_substreams_default]
-WRITER_PARTS = [check_packinfo_write, check_small_functions, check_folder, check_unpackinfo_write, check_substreams_write]
+                check_substreams_default, check_streams_read, check_files_read_pieces, check_files_read]
+WRITER_PARTS = [check_packinfo_write, check_small_functions, check_folder, check_unpackinfo_write, check_substreams_write, check_streams_write, check_files_write_pieces, check_files_write]
 
 
 def _run(ctx, rep, rng, tier, parts, label):
